@@ -14,3 +14,5 @@ open Nitime.C12.Props
 #print axioms no_coupling_zero
 #print axioms analyzer_places_pairs
 #print axioms defaultIJ_mem
+#print axioms analyzer_freq_axis
+#print axioms analyzer_grid_flag
